@@ -39,6 +39,11 @@ for sid in ids:
         viol = [l for l in c.stdout.splitlines() if l.startswith("VIOLATION")]
         ok = c.returncode == 1 and viol
         print(f"{sid}: {prop} quick rc={c.returncode} {'caught' if ok else 'NOT CAUGHT'}", flush=True)
+        if ok and prop not in meta.get("caught_by", []):
+            # the stored list dates from the first run: record that the check catches it now
+            meta.setdefault("caught_by", []).append(prop)
+            meta["caught_by_after_strengthening"] = True
+            json.dump(meta, open(d + "/meta.json", "w"), indent=1)
         if ok and SAVE:
             # keep the shrunk failing case as a plain regression case of the test that produced it
             for l in viol:
